@@ -280,7 +280,8 @@ def jobs(tier):
         J.append(Job("H1_cmap:alphabet:%d" % k, "h_alpha", {"func": "cmap_confined", "maxlen": ml, "part": [k, 4, 7]}, 300 if tier == "quick" else 1800, "H1_cmap"))
         J.append(Job("H2_imagename:alphabet:%d" % k, "h_alpha", {"func": "image_name_confined", "maxlen": ml, "part": [k, 4, 7]}, 300 if tier == "quick" else 1800, "H2_imagename"))
     J.append(Job("H2_imagename:long", "h_long", {}, 300, "H2_imagename"))
-    J.append(Job("H2_imagename:compat", "h_alpha", {"func": "image_name_confined", "maxlen": 4, "alpha": "/.a\uff0f\uff0e\u2024\uff3c"}, 300, "H2_imagename"))
+    for k in range(4):
+        J.append(Job("H2_imagename:compat:%d" % k, "h_alpha", {"func": "image_name_confined", "maxlen": 4, "alpha": "/.a\uff0f\uff0e\u2024\uff3c", "part": [k, 4, 5]}, 300, "H2_imagename"))
     for k in range(4):
         J.append(Job("H3_export:%d" % k, "h3_export", {"nimg": 1 if tier == "quick" else 2, "part": [k, 4, 4]}, 300 if tier == "quick" else 1800, "H3_export"))
     J.append(Job("H1_cmap:unset", "h_alpha", {"func": "cmap_confined_unset", "maxlen": 3}, 300, "H1_cmap"))
